@@ -10,64 +10,103 @@ import KiraModel.Proofs.ClockSharedLemmas
 namespace K
 open Clock Conc
 
-/-- a clock speed the code can digest: `SecondsPerTick(0)` is `∞` ticks per second in floating
-    point (the tick loop then never ends), while `1 / 0 = 0` over ℝ — so the theorems exclude it -/
+/-- a clock speed whose ticks-per-second value means the same over ℝ and in floating point:
+    `SecondsPerTick(0)` is `∞` ticks per second in IEEE arithmetic (since the repair of the tick loop the
+    clock then jumps to the saturated tick count — `C05_infinite_speed_saturates`; before it the audio
+    thread hung), while `1 / 0 = 0` over ℝ — so the theorems that state the formula `t₀ + v·Σdt` exclude
+    it.  It is NOT needed for termination any more: `C05_update_never_hangs`, `C05_no_history_hangs`. -/
 def ClockSpeed.Valid : ClockSpeed ℝ → Prop
   | .secondsPerTick s => s ≠ 0
   | _ => True
 
 /-! ### exact time -/
 
-/-- **the tick loop is fuel independent**: any two fuels above `⌊timer⌋` give the same result,
-    namely `⌊timer⌋` whole ticks and the fractional part of the timer. -/
+/-- **the tick loop the code used to run is fuel independent**: any two fuels above `⌊timer⌋` give the
+    same result, namely `⌊timer⌋` whole ticks and the fractional part of the timer. -/
 theorem C05_tick_loop_fuel_independent (fuel₁ fuel₂ n : ℕ) (t : ℝ) (ht : 0 ≤ t)
     (h₁ : ⌊t⌋₊ < fuel₁) (h₂ : ⌊t⌋₊ < fuel₂) :
     tickLoop fuel₁ n t = tickLoop fuel₂ n t ∧ tickLoop fuel₁ n t = some (n + ⌊t⌋₊, Int.fract t) := by
   rw [tickLoop_spec fuel₁ n t ht h₁, tickLoop_spec fuel₂ n t ht h₂]; exact ⟨rfl, rfl⟩
 
+/-- **the repaired tick count equals the loop it replaces, on every input on which the loop returns**
+    (`while tick_timer >= 1.0 { tick_timer -= 1.0; ticks += 1 }` → `floor`): for every timer — negative
+    ones included —, every tick count and every fuel, if the loop returns then `tickStep` (what
+    `Clock::update` now computes, without fuel) returns the same ticks and the same timer; and for a
+    non-negative timer both are `⌊timer⌋` more ticks and the fractional part.  (Over the floats the same
+    holds bit for bit for every timer below 2^53, where `x - 1.0` is exact — checked on the real code by
+    the `clock` suite's `tick` op against the old loop; from 2^53 on the loop never returned.) -/
+theorem C05_tick_count_eq_loop (fuel n : ℕ) (t : ℝ) :
+    (∀ r, tickLoop fuel n t = some r → tickStep n t = r)
+      ∧ (0 ≤ t → tickStep n t = (n + ⌊t⌋₊, Int.fract t))
+      ∧ (0 ≤ t → ⌊t⌋₊ < fuel → tickLoop fuel n t = some (tickStep n t)) :=
+  ⟨tickStep_eq_loop fuel n t, tickStep_nonneg n t,
+   fun h0 hf => by rw [tickLoop_spec fuel n t h0 hf, tickStep_nonneg n t h0]⟩
+
+/-- **an infinite speed saturates instead of hanging** (every number type, in particular the floats the
+    twin runs): when the timer's whole part is not finite — `SecondsPerTick(0.0)` or a subnormal value
+    (`1/x = ∞`), or a speed × step that overflows — the tick count is the saturated sum and the timer
+    restarts at exactly `0.0`; and a timer below 1 (also a NaN or `−∞` one, for which `1.0 ≤ timer` is
+    false) is left alone.  There is no loop and no fuel in `Clock.update`. -/
+theorem C05_infinite_speed_saturates {α : Type} [Add α] [Sub α] [Mul α] [Div α] [Neg α] [LT α] [LE α]
+    [DecidableLT α] [DecidableLE α] [OfScientific α] [KOps α] (ticks : ℕ) (timer : α) :
+    ((1.0 : α) ≤ timer → KOps.isFinite (KOps.floor timer) = false →
+        tickStep ticks timer = (KOps.satU64 (α := α) (ticks + KOps.toNatSat (KOps.floor timer)), (0.0 : α)))
+      ∧ (¬ (1.0 : α) ≤ timer → tickStep ticks timer = (ticks, timer)) := by
+  constructor
+  · intro h1 hf; simp [tickStep, h1, hf]
+  · intro h1; simp [tickStep, h1]
+
+/-- **`Clock::update` always returns** — for every clock, every speed (`SecondsPerTick(0)`, `1e300` ticks
+    per second, negative, NaN in the twin …), every `dt` and `Info`: it is a total function (no fuel, no
+    `Option`); it advances the speed parameter exactly once and touches neither the ticking flag, the
+    command slots nor the shared words.  (Before the repair the model needed fuel and the hypothesis
+    `ClockSpeed.Valid`; the code hung.) -/
+theorem C05_update_never_hangs (c : Clock ℝ) (dt : ℝ) (info : Info ℝ) :
+    ∃ c' r, c.update dt info = (c', r) ∧ c'.speed = (c.speed.update twCs dt info).1
+      ∧ c'.ticking = c.ticking ∧ c'.cmds = c.cmds ∧ c'.shared = c.shared := by
+  obtain ⟨h1, h2, h3, h4⟩ := update_frame c dt info
+  exact ⟨_, _, rfl, h1, h2, h3, h4⟩
+
 /-- **a started clock advances by exactly speed × elapsed time, whatever the partition.**  A
     ticking clock whose speed is at rest at `v ≥ 0` ticks per second, after updates `dt₁ … dtₙ`
-    (each `≥ 0`, any number, any sizes), shows the time `t₀ + v · Σ dtᵢ`: whole part in `ticks`,
-    fractional part in `[0, 1)` — a function of the *sum* only.  True for every fuel that covers
-    the largest single step. -/
-theorem C05_clock_accumulates (fuel : ℕ) (c : Clock ℝ) (info : Info ℝ) (v : ℝ) (dts : List ℝ)
+    (each `≥ 0`, any number, ANY sizes — no bound on `v · dt` any more: the tick count is computed, not
+    looped), shows the time `t₀ + v · Σ dtᵢ`: whole part in `ticks`, fractional part in `[0, 1)` — a
+    function of the *sum* only. -/
+theorem C05_clock_accumulates (c : Clock ℝ) (info : Info ℝ) (v : ℝ) (dts : List ℝ)
     (htick : c.ticking = true) (hwf : Clock.WF c) (hspeed : SteadySpeed c v)
     (_hvalid : c.speed.raw.Valid) (hv : 0 ≤ v)
-    (hnn : ∀ dt ∈ dts, 0 ≤ dt) (hfuel : ∀ dt ∈ dts, v * dt + 1 ≤ (fuel : ℝ)) :
-    ∃ c', c.run fuel info dts = some c'
-      ∧ c'.state.time = ⟨⌊val c + v * dts.sum⌋₊, Int.fract (val c + v * dts.sum)⟩
-      ∧ (c'.state.time.ticks : ℝ) + c'.state.time.fraction = val c + v * dts.sum
-      ∧ 0 ≤ c'.state.time.fraction ∧ c'.state.time.fraction < 1 := by
-  obtain ⟨c', hr, hval, hwf', _, _⟩ := run_steady fuel info v hv dts c htick hwf hspeed hnn hfuel
-  refine ⟨c', hr, ?_, hval, hwf'.1, hwf'.2⟩
-  have := time_eq_of_val c'.state.time hwf'
+    (hnn : ∀ dt ∈ dts, 0 ≤ dt) :
+    (c.run info dts).state.time = ⟨⌊val c + v * dts.sum⌋₊, Int.fract (val c + v * dts.sum)⟩
+      ∧ ((c.run info dts).state.time.ticks : ℝ) + (c.run info dts).state.time.fraction = val c + v * dts.sum
+      ∧ 0 ≤ (c.run info dts).state.time.fraction ∧ (c.run info dts).state.time.fraction < 1 := by
+  obtain ⟨hval, hwf', _, _⟩ := run_steady info v hv dts c htick hwf hspeed hnn
+  refine ⟨?_, hval, hwf'.1, hwf'.2⟩
+  have := time_eq_of_val (c.run info dts).state.time hwf'
   unfold val at hval
   rw [hval] at this
   exact this
 
 /-- **partition independence, stated directly**: two ways of splitting the same elapsed time into
     updates (callbacks × chunks of any sizes) leave the clock at the same time. -/
-theorem C05_partition_independent (fuel : ℕ) (c : Clock ℝ) (info : Info ℝ) (v : ℝ) (dts₁ dts₂ : List ℝ)
+theorem C05_partition_independent (c : Clock ℝ) (info : Info ℝ) (v : ℝ) (dts₁ dts₂ : List ℝ)
     (htick : c.ticking = true) (hwf : Clock.WF c) (hspeed : SteadySpeed c v)
     (hvalid : c.speed.raw.Valid) (hv : 0 ≤ v)
     (hnn₁ : ∀ dt ∈ dts₁, 0 ≤ dt) (hnn₂ : ∀ dt ∈ dts₂, 0 ≤ dt)
-    (hf₁ : ∀ dt ∈ dts₁, v * dt + 1 ≤ (fuel : ℝ)) (hf₂ : ∀ dt ∈ dts₂, v * dt + 1 ≤ (fuel : ℝ))
     (hsum : dts₁.sum = dts₂.sum) :
-    ∃ c₁ c₂, c.run fuel info dts₁ = some c₁ ∧ c.run fuel info dts₂ = some c₂
-      ∧ c₁.state.time = c₂.state.time := by
-  obtain ⟨c₁, h₁, e₁, _⟩ := C05_clock_accumulates fuel c info v dts₁ htick hwf hspeed hvalid hv hnn₁ hf₁
-  obtain ⟨c₂, h₂, e₂, _⟩ := C05_clock_accumulates fuel c info v dts₂ htick hwf hspeed hvalid hv hnn₂ hf₂
-  exact ⟨c₁, c₂, h₁, h₂, by rw [e₁, e₂, hsum]⟩
+    (c.run info dts₁).state.time = (c.run info dts₂).state.time := by
+  obtain ⟨e₁, _⟩ := C05_clock_accumulates c info v dts₁ htick hwf hspeed hvalid hv hnn₁
+  obtain ⟨e₂, _⟩ := C05_clock_accumulates c info v dts₂ htick hwf hspeed hvalid hv hnn₂
+  rw [e₁, e₂, hsum]
 
 /-- **pausing freezes the clock.**  `pause()` takes effect at the next `on_start_processing`
     (ticking off, published flag off); from then on no sequence of updates moves the time. -/
-theorem C05_pause_freezes (fuel : ℕ) (c : Clock ℝ) (info : Info ℝ) (dts : List ℝ) :
+theorem C05_pause_freezes (c : Clock ℝ) (info : Info ℝ) (dts : List ℝ) :
     (c.hPause.onStartProcessing).ticking = false
       ∧ (c.hPause.onStartProcessing).hTicking = false
       ∧ (c.cmds.reset = false → (c.hPause.onStartProcessing).state = c.state)
       ∧ (c.ticking = false →
-          ∃ c', c.run fuel info dts = some c' ∧ c'.state = c.state ∧ c'.ticking = false
-            ∧ c'.hTime = c.hTime) := by
+          (c.run info dts).state = c.state ∧ (c.run info dts).ticking = false
+            ∧ (c.run info dts).hTime = c.hTime) := by
   refine ⟨?_, ?_, ?_, ?_⟩
   · unfold Clock.onStartProcessing Clock.hPause
     cases c.cmds.setSpeed <;> by_cases hr : c.cmds.reset = true <;>
@@ -79,19 +118,19 @@ theorem C05_pause_freezes (fuel : ℕ) (c : Clock ℝ) (info : Info ℝ) (dts : 
     unfold Clock.onStartProcessing Clock.hPause
     cases c.cmds.setSpeed <;> simp [hr, Clock.updateShared, Clock.setTicking]
   · intro ht
-    obtain ⟨c', h1, h2, h3, h4, _⟩ := run_not_ticking fuel info dts c ht
-    exact ⟨c', h1, h2, h3, by unfold Clock.hTime; rw [h4]⟩
+    obtain ⟨h2, h3, h4, _⟩ := run_not_ticking info dts c ht
+    exact ⟨h2, h3, by unfold Clock.hTime; rw [h4]⟩
 
 /-- **stopping resets the clock to zero.**  `stop()` makes the handle read `0` at once; at the next
     `on_start_processing` the clock is `NotStarted`, not ticking, publishes `(0, 0.0)`; it stays
     there through any updates; and once restarted it counts from zero again. -/
-theorem C05_stop_resets (fuel : ℕ) (c : Clock ℝ) (info : Info ℝ) (dts : List ℝ) :
+theorem C05_stop_resets (c : Clock ℝ) (info : Info ℝ) (dts : List ℝ) :
     c.hStop.hTime = ⟨0, 0⟩
       ∧ (c.hStop.onStartProcessing).state = .notStarted
       ∧ (c.hStop.onStartProcessing).ticking = false
       ∧ (c.hStop.onStartProcessing).hTime = ⟨0, 0⟩
-      ∧ (∃ c', (c.hStop.onStartProcessing).run fuel info dts = some c' ∧ c'.state = .notStarted
-            ∧ c'.hTime = ⟨0, 0⟩)
+      ∧ (((c.hStop.onStartProcessing).run info dts).state = .notStarted
+            ∧ ((c.hStop.onStartProcessing).run info dts).hTime = ⟨0, 0⟩)
       ∧ val (c.hStop.onStartProcessing) = 0 ∧ Clock.WF (c.hStop.onStartProcessing) := by
   have hstate : (c.hStop.onStartProcessing).state = .notStarted := by
     unfold Clock.onStartProcessing Clock.hStop
@@ -103,8 +142,8 @@ theorem C05_stop_resets (fuel : ℕ) (c : Clock ℝ) (info : Info ℝ) (dts : Li
     unfold Clock.onStartProcessing Clock.hStop Clock.hTime
     cases c.cmds.setSpeed <;> simp [Clock.updateShared, Clock.setTicking, Clock.reset, ClockState.time]
   refine ⟨by simp [Clock.hStop, Clock.hTime], hstate, htick, htime, ?_, ?_, ?_⟩
-  · obtain ⟨c', h1, h2, _, h4, _⟩ := run_not_ticking fuel info dts _ htick
-    exact ⟨c', h1, by rw [h2, hstate], by unfold Clock.hTime at htime ⊢; rw [h4]; exact htime⟩
+  · obtain ⟨h2, _, h4, _⟩ := run_not_ticking info dts _ htick
+    exact ⟨by rw [h2, hstate], by unfold Clock.hTime at htime ⊢; rw [h4]; exact htime⟩
   · unfold val; rw [hstate]; simp [ClockState.time, ClockTime.val]
   · unfold Clock.WF; rw [hstate]; simp [ClockState.time, ClockTime.WF]
 
@@ -129,36 +168,34 @@ theorem C05_handle_shows_state (c : Clock ℝ) :
     update — ticking or not — advances the speed parameter exactly once with the same `dt` and
     `Info`, so over a run the speed is `Parameter.run` on the same steps (all of C06 applies to it);
     and a ticking clock's step uses the speed *after* that advance. -/
-theorem C05_speed_change_when_due (fuel : ℕ) (c : Clock ℝ) (info : Info ℝ) :
+theorem C05_speed_change_when_due (c : Clock ℝ) (info : Info ℝ) :
     (∀ v tw, ((c.hSetSpeed v tw).onStartProcessing).speed = c.speed.set v tw)
-    ∧ (∀ dts c', c.run fuel info dts = some c' → c'.speed = (c.speed.run twCs info dts).1)
+    ∧ (∀ dts, (c.run info dts).speed = (c.speed.run twCs info dts).1)
     ∧ (∀ dt, c.ticking = true → Clock.WF c → 0 ≤ dt →
         0 ≤ (c.speed.update twCs dt info).1.raw.asTicksPerSecond →
-        (c.speed.update twCs dt info).1.raw.asTicksPerSecond * dt + 1 ≤ (fuel : ℝ) →
-        ∃ c' r, c.update fuel dt info = some (c', r)
-          ∧ val c' = val c + (c.speed.update twCs dt info).1.raw.asTicksPerSecond * dt) := by
+        val (c.update dt info).1 = val c + (c.speed.update twCs dt info).1.raw.asTicksPerSecond * dt) := by
   refine ⟨?_, ?_, ?_⟩
   · intro v tw
     unfold Clock.onStartProcessing Clock.hSetSpeed
     cases c.cmds.setTicking <;> by_cases hr : c.cmds.reset = true <;>
       simp [hr, Clock.updateShared, Clock.setTicking, Clock.reset]
-  · intro dts c' h; exact run_speed fuel info dts c c' h
-  · intro dt ht hwf hdt hv hf
-    obtain ⟨c', r, h1, h2, _⟩ := update_ticking fuel c dt info ht hwf hdt hv hf
-    exact ⟨c', r, h1, h2⟩
+  · intro dts; exact run_speed info dts c
+  · intro dt ht hwf hdt hv
+    exact (update_ticking c dt info ht hwf hdt hv).1
 
 /-- **an immediate speed change**: `set_speed(s, Tween{Immediate, 0 s})` is in force from the very
     next update: from there the clock advances at the new speed for ever (any partition). -/
-theorem C05_speed_change_immediate (fuel : ℕ) (c : Clock ℝ) (info : Info ℝ) (s : ClockSpeed ℝ)
+theorem C05_speed_change_immediate (c : Clock ℝ) (info : Info ℝ) (s : ClockSpeed ℝ)
     (e : Easing ℝ) (dts : List ℝ) (htick : c.ticking = true) (hwf : Clock.WF c)
     (hstate : c.speed.state = .tweening c.speed.raw (.fixed s) 0 ⟨.immediate, 0, e⟩)
     (hst : c.speed.stagnant = false) (hvalid : s.Valid) (hv : 0 ≤ s.asTicksPerSecond)
-    (hnn : ∀ dt ∈ dts, 0 ≤ dt) (hfuel : ∀ dt ∈ dts, s.asTicksPerSecond * dt + 1 ≤ (fuel : ℝ)) :
-    ∃ c', c.run fuel info dts = some c'
-      ∧ (dts ≠ [] → (c'.state.time.ticks : ℝ) + c'.state.time.fraction = val c + s.asTicksPerSecond * dts.sum) := by
+    (hnn : ∀ dt ∈ dts, 0 ≤ dt) :
+    dts ≠ [] → ((c.run info dts).state.time.ticks : ℝ) + (c.run info dts).state.time.fraction
+      = val c + s.asTicksPerSecond * dts.sum := by
   cases dts with
-  | nil => exact ⟨c, rfl, fun h => absurd rfl h⟩
+  | nil => exact fun h => absurd rfl h
   | cons dt rest =>
+    intro _
     have hdt : 0 ≤ dt := hnn dt (by simp)
     -- the first update lands the parameter on the new speed
     have hup : (c.speed.update twCs dt info).1.raw = s ∧ (c.speed.update twCs dt info).1.stagnant = true := by
@@ -168,36 +205,72 @@ theorem C05_speed_change_immediate (fuel : ℕ) (c : Clock ℝ) (info : Info ℝ
       have hle : (durToSecs 0 : ℝ) ≤ 0 + dt := by rw [durToSecs_zero]; linarith
       simp only [hstate, Bool.not_true, Bool.false_eq_true, if_false, hle, if_true, Value.isFixed]
       simp [Parameter.calcRaw, Value.rawValue]
-    obtain ⟨c1, r, hu, hval1, hwf1, ht1, hsp1, _, _⟩ :=
-      update_ticking fuel c dt info htick hwf hdt (by rw [hup.1]; exact hv)
-        (by rw [hup.1]; exact hfuel dt (by simp))
-    have hs1 : SteadySpeed c1 s.asTicksPerSecond := by
+    obtain ⟨hval1, hwf1, ht1, hsp1, _, _⟩ :=
+      update_ticking c dt info htick hwf hdt (by rw [hup.1]; exact hv)
+    have hs1 : SteadySpeed (c.update dt info).1 s.asTicksPerSecond := by
       unfold SteadySpeed; rw [hsp1]; exact ⟨hup.2, by rw [hup.1]⟩
-    have hv1 : c1.speed.raw.Valid := by rw [hsp1, hup.1]; exact hvalid
-    obtain ⟨c2, hr2, _, hval2, _⟩ := C05_clock_accumulates fuel c1 info _ rest ht1 hwf1 hs1 hv1 hv
-      (fun x hx => hnn x (by simp [hx])) (fun x hx => hfuel x (by simp [hx]))
-    refine ⟨c2, by simp only [Clock.run, hu]; exact hr2, fun _ => ?_⟩
+    have hv1 : (c.update dt info).1.speed.raw.Valid := by rw [hsp1, hup.1]; exact hvalid
+    obtain ⟨_, hval2, _⟩ := C05_clock_accumulates (c.update dt info).1 info _ rest ht1 hwf1 hs1 hv1 hv
+      (fun x hx => hnn x (by simp [hx]))
+    simp only [Clock.run]
     rw [hval2, hval1, hup.1, List.sum_cons]; ring
+
+/-- **a speed tween is the linear interpolation in the target speed's unit** (over ℝ, where every
+    conversion is finite): `ClockSpeed::interpolate(a, b, t)` converts the start into the unit of the
+    target and interpolates there; it lands exactly on the target at `t = 1`. -/
+theorem C05_speed_interpolation (a b : ClockSpeed ℝ) (t : ℝ) :
+    ClockSpeed.lerp a b t = ClockSpeed.lerpInTargetUnit a b t ∧ ClockSpeed.lerp a b 1 = b := by
+  constructor
+  · cases b <;> simp [ClockSpeed.lerp, ClockSpeed.lerpInTargetUnit]
+  · cases b <;> simp [ClockSpeed.lerp, lerp64]
+
+/-- **a speed tween never manufactures a NaN speed** (every number type, in particular the floats the twin
+    runs — repaired: a clock at 0 ticks per second retargeted with a tween to a `SecondsPerTick` speed used to
+    get `inf + (b − inf)·t = NaN` as its speed, and its time stayed NaN until `stop()`): the interpolated
+    speed is finite in its unit; or it was computed in the unit of the starting speed and is not NaN (it may
+    be infinite when the TARGET is an infinite speed: the clock then saturates, `C05_infinite_speed_saturates`);
+    or it is the starting speed itself. -/
+theorem C05_speed_interpolation_never_nan {α : Type} [Add α] [Sub α] [Mul α] [Div α] [Neg α] [LT α] [LE α]
+    [DecidableLT α] [DecidableLE α] [OfScientific α] [KOps α] (a b : ClockSpeed α) (t : α) :
+    KOps.isFinite (ClockSpeed.lerp a b t).raw = true
+      ∨ KOps.isNaN (ClockSpeed.lerp a b t).raw = false
+      ∨ ClockSpeed.lerp a b t = a := by
+  have hstart : KOps.isNaN (ClockSpeed.lerpInUnitOfStart a b t).raw = false
+      ∨ ClockSpeed.lerpInUnitOfStart a b t = a := by
+    cases a <;> (
+      unfold ClockSpeed.lerpInUnitOfStart
+      dsimp only
+      split
+      · right; rfl
+      · rename_i h; left; simpa [ClockSpeed.raw] using h)
+  cases b <;> (
+    unfold ClockSpeed.lerp
+    dsimp only
+    split
+    · rename_i h; left; simpa [ClockSpeed.raw] using h
+    · rcases hstart with h | h
+      · right; left; exact h
+      · right; right; exact h)
 
 /-- **a speed tween scheduled on a clock time waits for it**: while the `Info` the clock is
     updated with does not say `Now` for that time, the tween has not begun (its state, with tween
     time 0, is untouched) — for every value type. -/
-theorem C05_speed_tween_waits_for_clock_time (fuel : ℕ) (c c' : Clock ℝ) (dt : ℝ) (info : Info ℝ)
-    (r : Option ℕ) (start : ClockSpeed ℝ) (target : Value ℝ (ClockSpeed ℝ)) (k : ℕ) (T : ClockTime ℝ)
+theorem C05_speed_tween_waits_for_clock_time (c : Clock ℝ) (dt : ℝ) (info : Info ℝ)
+    (start : ClockSpeed ℝ) (target : Value ℝ (ClockSpeed ℝ)) (k : ℕ) (T : ClockTime ℝ)
     (D : ℕ) (e : Easing ℝ)
     (hs : c.speed.state = .tweening start target 0 ⟨.clockTime k T, D, e⟩) (hst : c.speed.stagnant = false)
-    (hw : info.whenToStart k T ≠ .now) (hu : c.update fuel dt info = some (c', r)) :
-    c'.speed.state = c.speed.state := by
-  rw [(update_frame fuel c c' dt info r hu).1]
+    (hw : info.whenToStart k T ≠ .now) :
+    (c.update dt info).1.speed.state = c.speed.state := by
+  rw [(update_frame c dt info).1]
   exact (Parameter.update_waiting_clock twCs c.speed dt info start target k T D e hs hst hw).1
 
 /-! ### the chunk in which clock-scheduled things begin -/
 
 /-- the per-chunk verdicts a consumer of the mixer pass gets for "clock `c` at time `T`" over a
     history: one entry per chunk event, computed from the clocks *after* that chunk's clock update -/
-noncomputable def chunkVerdicts (fuel : ℕ) (s : Sys ℝ) (c : ℕ) (T : ClockTime ℝ) (evs : List (Ev ℝ)) :
+noncomputable def chunkVerdicts (s : Sys ℝ) (c : ℕ) (T : ClockTime ℝ) (evs : List (Ev ℝ)) :
     List WhenToStart :=
-  (Sys.mixTrace fuel s evs).map (fun p => p.2.whenToStart c T)
+  (Sys.mixTrace s evs).map (fun p => p.2.whenToStart c T)
 
 /-- **meaning of a verdict**: `Now` in chunk `k` ⇔ after chunk `k`'s clock update the clock exists,
     is ticking (not paused / stopped) and its time is at or past `T` (for well-formed times: in
@@ -226,21 +299,23 @@ theorem C05_verdict_meaning (s : Sys ℝ) (c : ℕ) (T : ClockTime ℝ) :
     Since this holds for every history, the first chunk it plays in is exactly that `k`: the first
     chunk at whose end the clock is ticking and at or past `T` — never later, and never a chunk at
     whose end the clock is paused or short of `T` (so at most one buffer before the exact instant). -/
-theorem C05_start_chunk (fuel : ℕ) (s s' : Sys ℝ) (j c : ℕ) (T : ClockTime ℝ) (evs : List (Ev ℝ))
-    (hw : s.waiters[j]? = some ⟨.clockTime c T, false, false⟩) (hrun : s.run fuel evs = some s') :
-    ∃ w, s'.waiters[j]? = some w
-      ∧ (w.audible = true ↔ ∃ k, startIndex (chunkVerdicts fuel s c T evs) = some k)
-      ∧ (w.stopped = true ↔ ∃ k, cancelIndex (chunkVerdicts fuel s c T evs) = some k)
+theorem C05_start_chunk (s : Sys ℝ) (j c : ℕ) (T : ClockTime ℝ) (evs : List (Ev ℝ))
+    (hw : s.waiters[j]? = some ⟨.clockTime c T, false, false⟩) :
+    ∃ s' w, s.run evs = some s' ∧ s'.waiters[j]? = some w
+      ∧ (w.audible = true ↔ ∃ k, startIndex (chunkVerdicts s c T evs) = some k)
+      ∧ (w.stopped = true ↔ ∃ k, cancelIndex (chunkVerdicts s c T evs) = some k)
       ∧ (w.audible = true → w.st = .immediate ∧ w.stopped = false) := by
-  have h := Sys.run_waiter fuel evs s s' j _ hrun hw
-  obtain ⟨o1, o2, o3⟩ := Waiter.outcome c T (Sys.mixTrace fuel s evs)
-  refine ⟨_, h, ?_⟩
+  obtain ⟨s', hrun⟩ := Sys.run_total evs s
+  refine ⟨s', ?_⟩
+  have h := Sys.run_waiter evs s s' j _ hrun hw
+  obtain ⟨o1, o2, o3⟩ := Waiter.outcome c T (Sys.mixTrace s evs)
+  refine ⟨_, hrun, h, ?_⟩
   unfold chunkVerdicts
-  cases hs : startIndex ((Sys.mixTrace fuel s evs).map (fun p => p.2.whenToStart c T)) with
+  cases hs : startIndex ((Sys.mixTrace s evs).map (fun p => p.2.whenToStart c T)) with
   | some k =>
     rw [o1 (by simp [hs])]
-    have hc : cancelIndex ((Sys.mixTrace fuel s evs).map (fun p => p.2.whenToStart c T)) = none := by
-      cases hc : cancelIndex ((Sys.mixTrace fuel s evs).map (fun p => p.2.whenToStart c T)) with
+    have hc : cancelIndex ((Sys.mixTrace s evs).map (fun p => p.2.whenToStart c T)) = none := by
+      cases hc : cancelIndex ((Sys.mixTrace s evs).map (fun p => p.2.whenToStart c T)) with
       | none => rfl
       | some k' =>
         have a := o1 (by simp [hs])
@@ -248,7 +323,7 @@ theorem C05_start_chunk (fuel : ℕ) (s s' : Sys ℝ) (j c : ℕ) (T : ClockTime
         rw [a] at b; simp at b
     simp [hc]
   | none =>
-    cases hc : cancelIndex ((Sys.mixTrace fuel s evs).map (fun p => p.2.whenToStart c T)) with
+    cases hc : cancelIndex ((Sys.mixTrace s evs).map (fun p => p.2.whenToStart c T)) with
     | some k => rw [o2 (by simp [hc])]; simp
     | none => rw [o3 (by simp [hs]) (by simp [hc])]; simp
 
@@ -277,8 +352,8 @@ theorem C05_missing_clock_cancels (s : Sys ℝ) (c : ℕ) (T : ClockTime ℝ) (d
     tweener's tween scheduled for clock time `T` stays untouched unless the clock was already
     ticking and at or past `T` at the chunk's beginning, and it begins in the first chunk for
     which that is so: one buffer *after* the buffer during which the clock reached `T`. -/
-theorem C05_modulator_tween_start_chunk (fuel : ℕ) (s s' : Sys ℝ) (dt : ℝ)
-    (h : s.chunk fuel dt = some s') :
+theorem C05_modulator_tween_start_chunk (s s' : Sys ℝ) (dt : ℝ)
+    (h : s.chunk dt = some s') :
     s'.mods = s.mods.map (fun p => (p.1, p.2.update dt s.mixInfo))
     ∧ ∀ (m : ModTweener ℝ) (a b : ℝ) (D : ℕ) (e : Easing ℝ) (c : ℕ) (T : ClockTime ℝ),
         m.state = .tweening a b 0 ⟨.clockTime c T, D, e⟩ →
@@ -286,19 +361,19 @@ theorem C05_modulator_tween_start_chunk (fuel : ℕ) (s s' : Sys ℝ) (dt : ℝ)
         ∧ (s.mixInfo.whenToStart c T = .now →
             (m.update dt s.mixInfo).state = .idle
             ∨ (m.update dt s.mixInfo).state = .tweening a b (0 + dt) ⟨.clockTime c T, D, e⟩) :=
-  ⟨Sys.chunk_mods fuel s s' dt h, fun m a b D e c T hs => ModTweener.update_waiting m a b D e c T dt _ hs⟩
+  ⟨Sys.chunk_mods s s' dt h, fun m a b D e c T hs => ModTweener.update_waiting m a b D e c T dt _ hs⟩
 
 /-- **a clock's speed tween scheduled on another clock depends on the key order.**  With two clocks
     `a` (earlier key) and `b`: `a` is updated seeing `b` as it was *before* this chunk's update (one
     buffer late, like a modulator), `b` is updated seeing `a` *after* its update (on time). -/
-theorem C05_clock_speed_tween_key_order (fuel : ℕ) (s : Sys ℝ) (mods : List (ℕ × ModTweener ℝ))
+theorem C05_clock_speed_tween_key_order (s : Sys ℝ) (mods : List (ℕ × ModTweener ℝ))
     (dt : ℝ) (a b : ℕ) (A B : Clock ℝ) (hab : a ≠ b) (hc : s.clocks = [(a, A), (b, B)])
-    (A' B' : Clock ℝ) (ra rb : Option ℕ)
-    (hA : A.update fuel dt (Sys.infoOf (fun j => if j = a then some Clock.dummy else if j = b then some B else none)
-            (fun id => mods.lookup id)) = some (A', ra))
-    (hB : B.update fuel dt (Sys.infoOf (fun j => if j = b then some Clock.dummy else if j = a then some A' else none)
-            (fun id => mods.lookup id)) = some (B', rb)) :
-    s.updateClocks fuel mods dt = some [(a, A'), (b, B')] := by
+    (A' B' : Clock ℝ)
+    (hA : (A.update dt (Sys.infoOf (fun j => if j = a then some Clock.dummy else if j = b then some B else none)
+            (fun id => mods.lookup id))).1 = A')
+    (hB : (B.update dt (Sys.infoOf (fun j => if j = b then some Clock.dummy else if j = a then some A' else none)
+            (fun id => mods.lookup id))).1 = B') :
+    s.updateClocks mods dt = some [(a, A'), (b, B')] := by
   have hba : b ≠ a := fun h => hab h.symm
   have v1 : (fun j => if j = a then some Clock.dummy else ([] ++ [(b, B)] : List (ℕ × Clock ℝ)).lookup j)
       = (fun j => if j = a then some Clock.dummy else if j = b then some B else none) := by
@@ -320,7 +395,7 @@ theorem C05_clock_speed_tween_key_order (fuel : ℕ) (s : Sys ℝ) (mods : List 
         simp [h1, h2, List.lookup, this]
   unfold Sys.updateClocks
   rw [hc]
-  simp only [forEachSelfRef, v1, hA, Option.map_some, v2, hB]
+  simp only [forEachSelfRef, v1, hA, v2, hB]
   rfl
 
 /-- **a speed tween scheduled on the clock's *own* time never fires.**  While a clock is updated
@@ -328,10 +403,10 @@ theorem C05_clock_speed_tween_key_order (fuel : ℕ) (s : Sys ℝ) (mods : List 
     answers `Later`.  For every history in which no new speed command is sent to clock `k`: if its
     speed tween waits for `ClockTime{clock: k, …}`, then after the history every clock stored under
     key `k` still has that tween un-begun (tween time 0) — however far the clock itself has run. -/
-theorem C05_own_time_speed_tween_never_fires (fuel : ℕ) (k : ℕ) (start : ClockSpeed ℝ)
+theorem C05_own_time_speed_tween_never_fires (k : ℕ) (start : ClockSpeed ℝ)
     (target : Value ℝ (ClockSpeed ℝ)) (T : ClockTime ℝ) (D : ℕ) (e : Easing ℝ) :
     ∀ (evs : List (Ev ℝ)) (s s' : Sys ℝ), OwnInv k start target T D e s →
-      (∀ ev ∈ evs, ev.leavesSpeedOf k) → s.run fuel evs = some s' →
+      (∀ ev ∈ evs, ev.leavesSpeedOf k) → s.run evs = some s' →
       ∀ p ∈ s'.clocks, p.1 = k →
         p.2.speed.state = .tweening start target 0 ⟨.clockTime k T, D, e⟩ := by
   intro evs
@@ -343,12 +418,21 @@ theorem C05_own_time_speed_tween_never_fires (fuel : ℕ) (k : ℕ) (start : Clo
   | cons ev rest ih =>
     intro s s' hinv hev hr p hp hk
     simp only [Sys.run] at hr
-    cases hs : s.step fuel ev with
+    cases hs : s.step ev with
     | none => rw [hs] at hr; exact absurd hr (by simp)
     | some s1 =>
       rw [hs] at hr
-      exact ih s1 s' (OwnInv.step fuel s s1 ev hinv (hev ev (by simp)) hs)
+      exact ih s1 s' (OwnInv.step s s1 ev hinv (hev ev (by simp)) hs)
         (fun x hx => hev x (by simp [hx])) hr p hp hk
+
+/-- **no history of the clock system can hang**: for every system state — whatever the clocks' speeds,
+    `SecondsPerTick(0)` and `1e300` ticks per second included — and every history of events (clocks and
+    tweeners added, commands, callbacks, chunks of any duration) the run returns a state.  Every
+    hypothesis `s.run evs = some s'` / `s.chunk dt = some s'` of the theorems above is therefore always
+    satisfiable; before the repair of the tick loop it was not (the model ran out of fuel where the audio
+    thread spun). -/
+theorem C05_no_history_hangs (s : Sys ℝ) (evs : List (Ev ℝ)) : ∃ s', s.run evs = some s' :=
+  Sys.run_total evs s
 
 /-! ### reading the time from the handle -/
 
